@@ -7,7 +7,7 @@ from .. import gen, refs
 from ..core import Workload
 from ..env import ptn
 
-MODELS = [('ising', 2, 8), ('xxz', 2, 8), ('xxz1', 3, 5), ('bose3', 3, 5), ('bose4', 4, 4), ('bose2', 2, 8), ('fermi', 4, 4), ('molecular', 2, 7), ('spin-molecular', 4, 4)]
+MODELS = [('ising', 2, 8), ('xxz', 2, 8), ('xxz1', 3, 5), ('bose3', 3, 5), ('bose4', 4, 4), ('bose2', 2, 8), ('fermi', 4, 4), ('molecular', 2, 9), ('spin-molecular', 4, 5)]
 
 
 def generic(rng, n):
@@ -40,6 +40,8 @@ def model_case(ctx, idx, rng):
     name, d, lmax = MODELS[idx % len(MODELS)]
     if ctx.tier == 'thorough' and name in ('xxz1', 'bose3'):
         lmax = 6
+    if ctx.tier == 'thorough' and name == 'molecular':
+        lmax = 10
     L = 2 + (idx // len(MODELS)) % (lmax - 1)
     H, par = build(name, L, rng)
     ctx.case((name, f'L{L}'), sample=dict(par, model=name, L=L), info=dict(par, model=name, L=L))
@@ -160,7 +162,7 @@ def random_graph_case(ctx, idx, rng):
 SPEC = {
     'id': 'C20',
     'rule': ('models: Ising (automaton), XXZ, spin-1 XXZ, Bose-Hubbard d=2,3,4, Fermi-Hubbard (chains), optimized molecular and spin-molecular, every '
-             'L from 2 to the dense reach (8 for two-level sites, 5-6 for three-level, 4 for four-level, 7 molecular), generic parameters '
+             'L from 2 to the dense reach (8 for two-level sites, 5-6 for three-level, 4 for four-level, 9-10 molecular (sites with far more than 128 distinct half-chains), 5 spin-molecular), generic parameters '
              '|p| in [0.1, 2] with random signs: bond_dims == numerical operator Schmidt rank (relative threshold 1e-9) at every cut; random chain '
              'lists (few/many/shared prefixes/suffixes/zero coefficients): layer width <= number of non-zero chains and <= number of distinct '
              'half-chains on either side; simplify never increases a width. distinct = (model or kind, L, size).'),
